@@ -428,7 +428,7 @@ func (c *monC12) End(m *Machine) *Violation {
 var kindsC12 = []wk{
 	{"otplogin", 22}, {"otpadd", 10}, {"otpclear", 2}, {"login", 12}, {"totpvalidate", 12}, {"smsvalidate", 12}, {"smsresend", 3},
 	{"regen", 1}, {"newsess", 5}, {"logout", 4}, {"advance", 4}, {"totpremove", 2}, {"smsremove", 2},
-	{"snip:otp", 14}, {"snip:2fa", 8}, {"snip:rec2fa", 10}, {"snip:enrolreplay", 3}, {"snip:removereplay", 5},
+	{"snip:otp", 14}, {"snip:2fa", 8}, {"snip:rec2fa", 10}, {"snip:enrolreplay", 3}, {"snip:removereplay", 5}, {"snip:smsfaultreplay", 6},
 }
 
 var profC12 = profile{
